@@ -5,13 +5,14 @@ HEmpty == <<95>>                     \* empty prefix:            _0004
 HA == <<97, 95>>                     \*                          a_0004
 HAB == <<97, 95, 98, 95>>            \* prefix with delimiter:   a_b_0004
 HUU == <<95, 95>>                    \* prefix "_":              __0004
+HA1 == <<97, 49, 95>>                \* prefix ending in a digit, and `a` is a prefix of it: a1_0004
 XNonInt == <<97, 95, 120>>           \* a_x   (no integer suffix)
 XNoSuffix == <<97, 95>>              \* a_    (empty suffix)
 \* identifiers in the form the function must accept
 HeadsCanon == {HNone, HA, HAB, HUU}
 NumsCanon == {0, 1, 2, 5, 9999, 10000}
 \* thorough tier, collections of <= 4
-HeadsCanon4 == {HNone, HA, HAB}
+HeadsCanon4 == {HNone, HA, HA1}
 NumsCanon4 == {1, 2, 3, 5, 9999, 10000}
 \* every printed width, empty prefix included
 HeadsAll == {HNone, HEmpty, HA}
@@ -36,4 +37,5 @@ ExtraUni == {XArabic, XDeva, XFull, XMixed, XSuper, XBareFull}
 ExtraAll == ExtraAscii \cup ExtraUni
 ExtraQuick == {XNonInt, XPlus, XArabic, XFull, XMixed, XSuper}
 HeadsUni == {HNone, HA}
+HeadsBig == {HNone, HEmpty, HA, HA1}
 =============================================================================
